@@ -181,7 +181,7 @@ Proof.
   - cbn [run2s last fst snd]. rewrite stab_entries_length. apply tab_length.
   - change (last (G1 :: G1' :: Y1) d1) with (last (G1' :: Y1) d1).
     change (last (G2 :: G2' :: Y2) d2) with (last (G2' :: Y2) d2).
-    apply IH; [discriminate|]. now injection L.
+    apply IH; [discriminate|]. cbn [length] in L |- *. lia.
 Qed.
 (* the scalar returned by mul_scalar(use_stab): |v| <= thr (with the repaired default thr = 0: v = 0) or lo <= |v| < 2 *)
 Theorem mul_scalar_stab_mantissa lo Y1 Y2 d1 d2 : ilog2_ok lo ilog2 -> 0 <= thr ->
@@ -235,6 +235,12 @@ Proof.
     rewrite powerRZ_Rpower by lra. rewrite <- Rpower_sqrt by lra. rewrite <- Rpower_plus. f_equal.
     rewrite plus_IZR, mult_IZR. field.
 Qed.
+Lemma Rpower_half_sub h1 h2 :
+  Rpower 2 (IZR (h1 - h2) / 2) = Rpower 2 (IZR h1 / 2) / Rpower 2 (IZR h2 / 2).
+Proof.
+  replace (IZR (h1 - h2) / 2) with (IZR h1 / 2 + - (IZR h2 / 2)) by (rewrite minus_IZR; field).
+  rewrite Rpower_plus, Rpower_Ropp. reflexivity.
+Qed.
 Definition nrm2 (Y : list (core R)) : R := sqrt (mul_scalar OR Y Y).   (* ||Y|| *)
 Theorem accuracy_spec big tiny Y1 Y2 : 0 < tiny ->
   let h1 := snd (norm_stab OR ilog2 thr (sub OR Y1 Y2)) in
@@ -252,18 +258,16 @@ Proof.
   set (zp1 := norm_stab OR ilog2 thr (sub OR Y1 Y2)) in *. set (zp2 := norm_stab OR ilog2 thr Y2) in *.
   rewrite !isinf_false. cbn [orb oltb oabs oopp o1 o0 omul odiv OR].
   repeat split.
-  - intros H. apply Z.gtb_lt in H. now rewrite H.
-  - intros H. destruct (snd zp1 - snd zp2 >? 1000)%Z eqn:E1; [apply Z.gtb_lt in E1; lia|].
-    apply Z.ltb_lt in H. now rewrite H.
-  - intros [Ha Hb] Hz. destruct (snd zp1 - snd zp2 >? 1000)%Z eqn:E1; [apply Z.gtb_lt in E1; lia|].
-    destruct (snd zp1 - snd zp2 <? -1000)%Z eqn:E2; [apply Z.ltb_lt in E2; lia|].
+  - intros H. destruct (Z.gtb_spec (snd zp1 - snd zp2) 1000); [reflexivity|lia].
+  - intros H. destruct (Z.gtb_spec (snd zp1 - snd zp2) 1000); [lia|].
+    destruct (Z.ltb_spec (snd zp1 - snd zp2) (-1000)); [reflexivity|lia].
+  - intros [Ha Hb] Hz. destruct (Z.gtb_spec (snd zp1 - snd zp2) 1000); [lia|].
+    destruct (Z.ltb_spec (snd zp1 - snd zp2) (-1000)); [lia|].
     apply Rltb_true in Hz. now rewrite Hz.
-  - intros [Ha Hb] Hz. destruct (snd zp1 - snd zp2 >? 1000)%Z eqn:E1; [apply Z.gtb_lt in E1; lia|].
-    destruct (snd zp1 - snd zp2 <? -1000)%Z eqn:E2; [apply Z.ltb_lt in E2; lia|].
-    apply Rltb_false in Hz. rewrite Hz. unfold nrm2. rewrite <- N1, <- N2. rewrite pow2h_Rpower.
-    rewrite minus_IZR. unfold Rdiv at 1. unfold Rminus. rewrite Rmult_plus_distr_r, Rpower_plus.
-    replace (- IZR (snd zp2) * / 2) with (- (IZR (snd zp2) / 2)) by (unfold Rdiv; ring).
-    rewrite Rpower_Ropp. fold (Rdiv (IZR (snd zp1)) 2).
+  - intros [Ha Hb] Hz. destruct (Z.gtb_spec (snd zp1 - snd zp2) 1000); [lia|].
+    destruct (Z.ltb_spec (snd zp1 - snd zp2) (-1000)); [lia|].
+    pose proof Hz as Hz'. apply Rltb_false in Hz'. rewrite Hz'. unfold nrm2. rewrite <- N1, <- N2. rewrite pow2h_Rpower.
+    rewrite Rpower_half_sub.
     assert (fst zp2 <> 0). { intros E0. rewrite E0, Rabs_R0 in Hz. lra. }
     assert (0 < Rpower 2 (IZR (snd zp2) / 2)) by (unfold Rpower; apply exp_pos).
     field. split; lra.
